@@ -45,7 +45,10 @@ VAllFail(n) == [t |-> "allfail", n |-> n, s |-> <<>>]
 \* a class object (the result of type(..)): 1 int, 2 bool, 3 NoneType, 4 list, 5 the harness's Obj class
 VCls(n)   == [t |-> "cls", n |-> n, s |-> <<>>]
 ClsOfVal(v) == CASE v.t = "int" -> 1 [] v.t = "bool" -> 2 [] v.t = "none" -> 3 [] v.t = "list" -> 4 [] v.t = "obj" -> 5
-                 [] v.t = "cls" -> 6 [] v.t = "amb" -> 7
+                 [] v.t = "cls" -> 6 [] v.t = "amb" -> 7 [] v.t = "fmt" -> 8
+\* the string f"{v}", i.e. format(v, ""): identified by the value it was made from (a class may format differently from
+\* what str() gives: the harness's objects do)
+VFmt(v) == [t |-> "fmt", n |-> v.n, s |-> <<ClsOfVal(v)>> \o v.s]
 \* an object whose truth value is AMBIGUOUS (bool(v) raises, as for a numpy array): Python tests the truth of an operand
 \* of and/or only if it is not the last one, of `not`, of the test of a conditional expression
 VAmb == [t |-> "amb", n |-> 0, s |-> <<>>]
@@ -54,17 +57,19 @@ VNumeric(v) == v.t \in {"int", "bool"}
 Truthy(v) == CASE v.t = "int" -> v.n # 0 [] v.t = "bool" -> v.n = 1 [] v.t = "none" -> FALSE
                [] v.t = "list" -> v.s # <<>> [] v.t = "obj" -> TRUE [] v.t = "allfail" -> FALSE [] v.t = "cls" -> TRUE
                [] v.t = "amb" -> TRUE      \* (never consulted: every use is guarded by TruthOK)
+               [] v.t = "fmt" -> TRUE      \* (no value of the domain formats to the empty string)
 \* Python equality
 PyEq(a, b) == IF VNumeric(a) /\ VNumeric(b) THEN a.n = b.n
               ELSE IF a.t = "list" /\ b.t = "list" THEN a.s = b.s
               ELSE IF a.t = "none" /\ b.t = "none" THEN TRUE
               ELSE IF a.t = "obj" /\ b.t = "obj" THEN a.n = b.n     \* same object (one object per attribute value)
               ELSE IF a.t = "cls" /\ b.t = "cls" THEN a.n = b.n
+              ELSE IF a.t = "fmt" /\ b.t = "fmt" THEN a = b
               ELSE IF a.t = "amb" /\ b.t = "amb" THEN TRUE          \* the one ambiguous object of a case
               ELSE FALSE
 
 Arity(k) == CASE k \in {"int", "none", "true", "false", "name"} -> 0
-              [] k \in {"not", "neg", "ident", "len", "first", "attr", "isnone", "all_gt", "all_pos", "sum_star", "comp", "typeof"} -> 1
+              [] k \in {"not", "neg", "ident", "len", "first", "attr", "isnone", "all_gt", "all_pos", "sum_star", "comp", "typeof", "fstr"} -> 1
               [] k \in {"add", "floordiv", "and", "or", "lt", "eq", "in", "star_then", "pairlen"} -> 2
               [] k \in {"ifexp", "lt2", "and3", "or3"} -> 3
 
@@ -133,6 +138,7 @@ Unary(k, v) ==
                          ELSE Ok(VInt(Digits(v.s, 1, 0)))
     [] k = "comp" -> IF v.t = "list" THEN Ok(v) ELSE Exc("TypeError")
     [] k = "typeof" -> Ok(VCls(ClsOfVal(v)))      \* type(<c>): a call whose result is a class object
+    [] k = "fstr" -> Ok(VFmt(v))                  \* f"{<c>}": a formatted string literal, shown as a whole
     [] k = "neg" -> IF VNumeric(v) THEN Ok(VInt(0 - v.n)) ELSE Exc("TypeError")
     [] k = "ident" -> Ok(v)
     [] k = "len" -> IF v.t = "list" THEN Ok(VInt(Len(v.s))) ELSE Exc("TypeError")
@@ -339,7 +345,7 @@ RecChain(p) ==
 -----------------------------------------------------------------------------
 (* What the message shows: names, attributes, calls and subscripts that got *)
 (* a recorded value (icontract/_represent.py).                              *)
-ShownKind(k) == k \in {"name", "ident", "len", "first", "attr", "all_gt", "all_pos", "sum_star", "comp", "typeof", "star_then", "pairlen"}
+ShownKind(k) == k \in {"name", "ident", "len", "first", "attr", "all_gt", "all_pos", "sum_star", "comp", "typeof", "star_then", "pairlen", "fstr"}
 PyRes  == Eval(1)
 RecRes == Rec(1)
 Shown  == {pv \in RecRes.val : pv[1] = 0 \/ ShownKind(Expr[pv[1]].k)}
